@@ -215,6 +215,9 @@ type input struct {
 	lines    []string // expected lines (all decodable lines for a failing stream)
 	fails    bool     // cannot be opened or fails while being read
 	prefixOK bool     // failing stream: any prefix of lines accepted
+	// alt: the other reading of a file whose classification (gzip content /
+	// non-gzip file) the statement leaves open; nil when there is only one
+	alt *input
 }
 
 type expectation struct {
@@ -225,6 +228,8 @@ type expectation struct {
 	refusedOK     bool // -z with stdin: an up-front refusal is also accepted
 	anyRefusalOK  bool // `-` mixed with paths: a usage refusal is also accepted
 	variant       string
+	// filled in by checkFilter: inputs with two admissible readings (input.alt)
+	readAsPlain, readAsGzip int
 }
 
 // fileInput computes what reading the file at rel (relative to t.dir) must
